@@ -199,6 +199,16 @@ func (p *Path) intrinsic(fn *ssa.Function, args []Value) (Value, bool) {
 			return itoa(a), true
 		}
 		return a, true
+	case "verifTempFile":
+		return p.nondetVar(constStr(p, args[0], "nondet name"), SStr), true
+	case "verifReadTempFile":
+		return Tuple{mkStr(""), tFalse}, true
+	case "verifEffectFailed":
+		i := p.concreteInt(args[0], "effect index")
+		if i < 0 || int(i) >= len(p.effectFail) {
+			return tFalse, true
+		}
+		return p.effectFail[i], true
 	case "verifGlobalWrites":
 		return mkInt(int64(len(p.gwrites))), true
 	case "verifTrackGlobals":
@@ -292,6 +302,10 @@ func (p *Path) specIntrinsic(n string, args []Value) (Value, bool) {
 			return mkBig(intLitValue(lit.S)), true
 		}
 		return mkUF("intlitval", SInt, lit), true
+	case "specGofmt":
+		return gofmtOf(args[0].(*Term)), true
+	case "specGofmtOK":
+		return gofmtOK(args[0].(*Term)), true
 	case "specOneToken":
 		lit := args[0].(*Term)
 		switch constStr(p, args[1], "token kind") {
